@@ -72,6 +72,87 @@ def real_vs_real(ck, rng, n):
     ck.current_case = None
 
 
+def key_independence_probe(ck, quick):
+    """No two parallel environments may ever be handed the same key: a probe environment whose observation IS the raw draw of
+    the key it receives makes the key streams visible in the collected data.  Independent of how lerax derives the per-environment
+    keys: two environments with identical draw sequences over >= 6 steps share a key stream (chance collision < 2^-100)."""
+    from typing import ClassVar
+    from lerax.env import AbstractEnv, AbstractEnvState
+    from lerax.policy import AbstractActorCriticPolicy
+    from lerax.space import Discrete
+    from harness.stubs import RAW_MAX, raw
+
+    class PState(AbstractEnvState):
+        c: jax.Array
+
+    class KeyProbeEnv(AbstractEnv):
+        name: ClassVar[str] = "KeyProbe"
+        action_space: Discrete
+        observation_space: Discrete
+
+        def __init__(self):
+            self.action_space = Discrete(2); self.observation_space = Discrete(RAW_MAX)
+
+        def initial(self, *, key): return PState(raw(key) % 7)
+        def action_mask(self, state, *, key): return None
+        def transition(self, state, action, *, key): return PState((state.c + 1 + raw(key) % 3) % 11)
+        def observation(self, state, *, key): return raw(key)
+        def reward(self, state, action, next_state, *, key): return (raw(key) % 5).astype(float)
+        def terminal(self, state, *, key): return raw(key) % 4 == 0
+        def truncate(self, state): return jnp.array(False)
+        def state_info(self, state): return {}
+        def transition_info(self, s, a, n): return {}
+        def default_renderer(self): raise NotImplementedError
+        def render(self, state, renderer): raise NotImplementedError
+
+    class ZeroPolicy(AbstractActorCriticPolicy):
+        name: ClassVar[str] = "Zero"
+        action_space: Discrete
+        observation_space: Discrete
+
+        def __init__(self, env): self.action_space = env.action_space; self.observation_space = env.observation_space
+        def reset(self, *, key): return None
+        def __call__(self, state, observation, *, key=None, action_mask=None): return None, jnp.asarray(0)
+        def action_and_value(self, state, observation, *, key, action_mask=None): return None, (raw(key) % 2), jnp.asarray(0.0), jnp.asarray(0.0)
+        def value(self, state, observation): return None, jnp.asarray(0.0)
+        def evaluate_action(self, state, observation, action, *, action_mask=None): return None, jnp.asarray(0.0), jnp.asarray(0.0), jnp.asarray(0.0)
+
+    env = KeyProbeEnv(); pol = ZeroPolicy(env); cb = CallbackList(callbacks=[])
+
+    def shared(seqs):
+        seqs = [tuple(int(x) for x in np.asarray(q).reshape(-1)) for q in seqs]
+        return [(i, j) for i in range(len(seqs)) for j in range(i + 1, len(seqs)) if seqs[i] == seqs[j]]
+
+    for rep in range(2 if quick else 8):
+        N = 2 + rep % 3; T = 8
+        root = jr.key(ck.seed * 100 + rep)
+        # on-policy: reset + one iteration's collection (as iteration() does it)
+        algo = PPO(num_envs=N, num_steps=T, num_epochs=1, num_batches=1)
+        st = algo.reset(env, pol, key=root, callback=cb)
+        rk = jr.split(jr.key(rep + 7), 3)[0]
+        ss, buf = eqx.filter_jit(lambda s, k: eqx.filter_vmap(algo.collect_rollout, in_axes=(None, None, eqx.if_array(0), None, 0))(env, pol, s, cb, jr.split(k, N)))(st.step_state, rk)
+        bad = shared([buf.observations[i] for i in range(N)])
+        ck.case_seen(("probe-on", rep, N)); ck.count("key_independence_probes")
+        if bad:
+            ck.violations.append(Violation("impl-violates-property", "C12/onpolicy/shared-key-stream", f"parallel environments {bad} received identical key streams during on-policy collection",
+                                           case={"num_envs": N, "num_steps": T, "seed": ck.seed * 100 + rep, "observations(raw draws)": np.asarray(buf.observations).tolist()}))
+        # off-policy: warm-up inside reset(), then one collection
+        dq = DQN(buffer_size=64 * N, learning_starts=T, num_envs=N, num_steps=T, batch_size=1)
+        st = dq.reset(env, pol, key=root, callback=cb)
+        b = st.step_state.buffer
+        bad = shared([b.observations[i][:T] for i in range(N)])
+        ck.case_seen(("probe-warmup", rep, N)); ck.count("key_independence_probes")
+        if bad:
+            ck.violations.append(Violation("impl-violates-property", "C12/offpolicy/warmup-shared-key-stream", f"parallel environments {bad} received identical key streams during the learning-starts warm-up",
+                                           case={"num_envs": N, "learning_starts": T, "seed": ck.seed * 100 + rep, "observations(raw draws)": np.asarray(b.observations)[:, :T].tolist()}))
+        ss = eqx.filter_jit(lambda s, k: eqx.filter_vmap(dq.collect_rollout, in_axes=(None, None, eqx.if_array(0), None, 0))(env, pol, s, cb, jr.split(k, N)))(st.step_state, rk)
+        bad = shared([ss.buffer.observations[i][T:2 * T] for i in range(N)])
+        ck.case_seen(("probe-off", rep, N)); ck.count("key_independence_probes")
+        if bad:
+            ck.violations.append(Violation("impl-violates-property", "C12/offpolicy/shared-key-stream", f"parallel environments {bad} received identical key streams during off-policy collection",
+                                           case={"num_envs": N, "num_steps": T, "seed": ck.seed * 100 + rep}))
+
+
 def body(ck):
     ck.rule = ("(a) finite MDPs x wrapper stacks x tabular policies x N in 2..4 x T in 2..7: vmapped collection vs N single collections (real vs real, bitwise) and vs the Coq model; "
                "(b) built-in environments (classic control x constructor options x wrappers, MuJoCo; G1 in the thorough tier): eager vs jit vs vmap of transition/observation/reward/terminal on states reached by rollouts, rtol 2e-4")
@@ -81,6 +162,7 @@ def body(ck):
     ck.build_coq(); ck.compile_props()
     quick = ck.tier == "quick"
     real_vs_real(ck, ck.rng, 5 if quick else 60)
+    key_independence_probe(ck, quick)
     cases, cj = [], []
     for i in range(15 if quick else 250):
         lit, j, meta = gen_rollout_case(ck, ck.rng, 700_000 + i, force_vec=True)
